@@ -36,8 +36,9 @@ theorem ahead_cons {q : List Nat} {hd i j : Nat} (h : Ahead (hd :: q) i j) (hn :
 `busy`: the dispatcher waits for exactly the message that is dispatched-but-not-released or whose
 synchronous handler is running.  `ready`: only asynchronous calls are released early.  `ret`: a
 synchronous message whose sending call has returned is in the receiver's queue, holds the dispatcher,
-or is done.  `pred`: if `ret i` came before `send j` (i synchronous) then `i` is done, or `j` is not
-yet dispatched and `i` holds the dispatcher or stands before `j` in the queue. -/
+or is done.  `pred`: if `ret i` came before `send j`, or `i` stands before `j` in one body (i synchronous),
+then `i` is done, or `j` is not yet dispatched and `i` holds the dispatcher or stands before `j` in the
+queue. -/
 structure Inv (kind : Nat → Kind) (s : State) : Prop where
   qmem : ∀ i, i ∈ s.queue ↔ s.phase i = .queued
   qnodup : s.queue.Nodup
@@ -45,7 +46,8 @@ structure Inv (kind : Nat → Kind) (s : State) : Prop where
   ready : ∀ i, s.phase i = .ready → (kind i).sync = false
   ret : ∀ i, i ∈ s.returned → (kind i).sync = true →
     s.phase i = .queued ∨ s.busy = some i ∨ s.phase i = .done
-  pred : ∀ i j, (i, j) ∈ s.pred → (kind i).sync = true ∧ i ∈ s.returned ∧
+  pred : ∀ i j, (i, j) ∈ s.pred → (kind i).sync = true ∧
+    (i ∈ s.returned ∨ ((i, j) ∈ s.after ∧ s.phase i ≠ .unsent)) ∧
     (s.phase i = .done ∨ s.phase j = .sending ∨
       (s.phase j = .queued ∧ (s.busy = some i ∨ Ahead s.queue i j)))
 
@@ -58,12 +60,51 @@ theorem inv_init (kind : Nat → Kind) : Inv kind init := by
 @[simp] theorem setPhase_busy (s : State) (i : Nat) (p : Phase) : (s.setPhase i p).busy = s.busy := rfl
 @[simp] theorem setPhase_returned (s : State) (i : Nat) (p : Phase) : (s.setPhase i p).returned = s.returned := rfl
 @[simp] theorem setPhase_pred (s : State) (i : Nat) (p : Phase) : (s.setPhase i p).pred = s.pred := rfl
+@[simp] theorem setPhase_after (s : State) (i : Nat) (p : Phase) : (s.setPhase i p).after = s.after := rfl
 
-theorem inv_send {kind : Nat → Kind} {s s' : State} {i : Nat} (h : Inv kind s)
-    (hs : step kind s (.send i) = some s') : Inv kind s' := by
+/-- A synchronous message that has been written is in the queue, holds the dispatcher, or is done. -/
+theorem Inv.beyond {kind : Nat → Kind} {s : State} (h : Inv kind s) {i : Nat} (hsync : (kind i).sync = true)
+    (h1 : s.phase i ≠ .unsent) (h2 : s.phase i ≠ .sending) :
+    s.phase i = .queued ∨ s.busy = some i ∨ s.phase i = .done := by
+  cases hp : s.phase i with
+  | unsent => exact absurd hp h1
+  | sending => exact absurd hp h2
+  | queued => left; rfl
+  | dispatched => right; left; exact (h.busy i).2 (Or.inl hp)
+  | ready => have := h.ready i hp; simp [hsync] at this
+  | running => right; left; exact (h.busy i).2 (Or.inr ⟨hp, hsync⟩)
+  | done => right; right; rfl
+
+/-- The first component of a `pred` pair has been sent. -/
+theorem Inv.pred_sent {kind : Nat → Kind} {s : State} (h : Inv kind s) {a b : Nat} (hab : (a, b) ∈ s.pred) :
+    s.phase a ≠ .unsent := by
+  obtain ⟨h1, h2, _⟩ := h.pred a b hab
+  rcases h2 with h2 | ⟨_, h2⟩
+  · intro hu
+    rcases h.ret a h2 h1 with q | q | q
+    · simp [hu] at q
+    · have := (h.busy a).1 q; simp [hu] at this
+    · simp [hu] at q
+  · exact h2
+
+/-- Bookkeeping for the second conjunct of `Inv.pred` under a phase change to a phase other than `unsent`. -/
+theorem snd_conj {s : State} {a b k : Nat} {p : Phase} {R : Prop} (hp : p ≠ .unsent)
+    (h : R ∨ ((a, b) ∈ s.after ∧ s.phase a ≠ .unsent)) :
+    R ∨ ((a, b) ∈ s.after ∧ (if a = k then p else s.phase a) ≠ .unsent) := by
+  rcases h with h | ⟨h1, h2⟩
+  · left; exact h
+  · right; refine ⟨h1, ?_⟩; split <;> assumption
+
+theorem step_send_eq (kind : Nat → Kind) (s : State) (i : Nat) :
+    step kind s (.send i) = step kind s (.bsend [] i) := by
+  simp [step]
+
+theorem inv_bsend {kind : Nat → Kind} {s s' : State} {ps : List Nat} {i : Nat} (h : Inv kind s)
+    (hs : step kind s (.bsend ps i) = some s') : Inv kind s' := by
   simp only [step] at hs
   split at hs <;> simp at hs
-  rename_i hu
+  rename_i hg
+  obtain ⟨hu, hps⟩ := hg
   subst hs
   refine ⟨?_, h.qnodup, ?_, ?_, ?_, ?_⟩
   · intro k
@@ -94,29 +135,36 @@ theorem inv_send {kind : Nat → Kind} {s s' : State} {i : Nat} (h : Inv kind s)
   · intro a b hab
     simp only [setPhase_phase, setPhase_busy, setPhase_queue, setPhase_returned, List.mem_append, List.mem_map,
       List.mem_filter, Prod.mk.injEq] at *
-    rcases hab with hab | ⟨k, ⟨hk, hsync⟩, rfl, rfl⟩
+    rcases hab with hab | ⟨k, ⟨hk, hsync⟩, rfl, rfl⟩ | ⟨k, ⟨hk, hsync⟩, rfl, rfl⟩
     · obtain ⟨h1, h2, h3⟩ := h.pred a b hab
-      refine ⟨h1, h2, ?_⟩
-      have hai : a ≠ i := by
-        intro e; subst e
-        rcases h.ret a h2 h1 with q | q | q
-        · simp [hu] at q
-        · have := (h.busy a).1 q; simp [hu] at this
-        · simp [hu] at q
+      have hai : a ≠ i := by intro e; subst e; exact h.pred_sent hab hu
+      refine ⟨h1, ?_, ?_⟩
+      · rcases h2 with h2 | ⟨h2, h2'⟩
+        · left; exact h2
+        · right; exact ⟨Or.inl h2, by simp [hai, h2']⟩
       rcases h3 with q | q | q
       · left; simp [hai, q]
       · right; left; by_cases hb : b = i <;> simp [hb, q]
       · right; right
         have hbi : b ≠ i := by intro e; subst e; simp [hu] at q
         simpa [hbi] using q
-    · refine ⟨hsync, hk, ?_⟩
+    · refine ⟨hsync, Or.inl hk, ?_⟩
       right; left; simp
+    · have hki : k ≠ i := by intro e; subst e; exact hps k hk hu
+      refine ⟨hsync, Or.inr ⟨Or.inr ⟨k, hk, rfl, rfl⟩, by simp [hki]; exact hps k hk⟩, ?_⟩
+      right; left; simp
+
+theorem inv_send {kind : Nat → Kind} {s s' : State} {i : Nat} (h : Inv kind s)
+    (hs : step kind s (.send i) = some s') : Inv kind s' := by
+  rw [step_send_eq] at hs
+  exact inv_bsend h hs
 
 theorem inv_write {kind : Nat → Kind} {s s' : State} {i : Nat} (h : Inv kind s)
     (hs : step kind s (.write i) = some s') : Inv kind s' := by
   simp only [step] at hs
   split at hs <;> simp at hs
-  rename_i hu
+  rename_i hg
+  obtain ⟨hu, hord⟩ := hg
   subst hs
   have hiq : i ∉ s.queue := by intro hq; have := (h.qmem i).1 hq; simp [hu] at this
   refine ⟨?_, ?_, ?_, ?_, ?_, ?_⟩
@@ -144,24 +192,31 @@ theorem inv_write {kind : Nat → Kind} {s s' : State} {i : Nat} (h : Inv kind s
     · subst hki; simp
     · simpa [hki] using this
   · intro a b hab
-    simp only [setPhase_phase, setPhase_busy, setPhase_queue, setPhase_returned, setPhase_pred] at *
+    simp only [setPhase_phase, setPhase_busy, setPhase_queue, setPhase_returned, setPhase_pred, setPhase_after] at *
     obtain ⟨h1, h2, h3⟩ := h.pred a b hab
-    refine ⟨h1, h2, ?_⟩
-    have hai : a ≠ i := by
-      intro e; subst e
-      rcases h.ret a h2 h1 with q | q | q
-      · simp [hu] at q
-      · have := (h.busy a).1 q; simp [hu] at this
-      · simp [hu] at q
+    refine ⟨h1, snd_conj (by simp) h2, ?_⟩
     by_cases hb : b = i
     · subst hb
-      rcases h.ret a h2 h1 with q | q | q
+      -- `a` has been written: its sending call returned, or it stands before `b` in the same body
+      have hbey : s.phase a = .queued ∨ s.busy = some a ∨ s.phase a = .done := by
+        rcases h2 with h2 | ⟨h2, _⟩
+        · exact h.ret a h2 h1
+        · have := hord (a, b) h2 rfl
+          exact h.beyond h1 this.1 this.2
+      have hai : a ≠ b := by
+        intro e; subst e
+        rcases hbey with q | q | q
+        · simp [hu] at q
+        · have := (h.busy a).1 q; simp [hu] at this
+        · simp [hu] at q
+      rcases hbey with q | q | q
       · right; right
         exact ⟨by simp, Or.inr (ahead_of_mem b ((h.qmem a).2 q))⟩
       · right; right; exact ⟨by simp, Or.inl q⟩
       · left; simp [hai, q]
     · rcases h3 with q | q | ⟨q, r⟩
-      · left; simp [hai, q]
+      · have hai : a ≠ i := by intro e; subst e; simp [hu] at q
+        left; simp [hai, q]
       · right; left; simp [hb, q]
       · right; right
         refine ⟨by simp [hb, q], ?_⟩
@@ -195,7 +250,7 @@ theorem inv_ret {kind : Nat → Kind} {s s' : State} {i : Nat} (h : Inv kind s)
     · exact h.ret k hk hsync
   · intro a b hab
     obtain ⟨h1, h2, h3⟩ := h.pred a b hab
-    exact ⟨h1, List.mem_cons_of_mem _ h2, h3⟩
+    exact ⟨h1, h2.imp (List.mem_cons_of_mem _) id, h3⟩
 
 theorem inv_disp {kind : Nat → Kind} {s s' : State} {i : Nat} (h : Inv kind s)
     (hs : step kind s (.disp i) = some s') : Inv kind s' := by
@@ -250,7 +305,7 @@ theorem inv_disp {kind : Nat → Kind} {s s' : State} {i : Nat} (h : Inv kind s)
     · intro a b hab
       simp only [setPhase_phase]
       obtain ⟨h1, h2, h3⟩ := h.pred a b hab
-      refine ⟨h1, h2, ?_⟩
+      refine ⟨h1, snd_conj (by simp) h2, ?_⟩
       rcases h3 with q1 | q1 | ⟨q1, r⟩
       · by_cases ha : a = hd
         · subst ha; simp [hph] at q1
@@ -314,7 +369,7 @@ theorem inv_rel {kind : Nat → Kind} {s s' : State} {i : Nat} (h : Inv kind s)
   · intro a b hab
     simp only [setPhase_phase, setPhase_queue, setPhase_pred] at *
     obtain ⟨h1, h2, h3⟩ := h.pred a b hab
-    refine ⟨h1, h2, ?_⟩
+    refine ⟨h1, snd_conj (by simp) h2, ?_⟩
     have hai : a ≠ i := by intro e; subst e; simp [hasync] at h1
     rcases h3 with q | q | ⟨q, r⟩
     · left; simp [hai, q]
@@ -370,7 +425,7 @@ theorem inv_start {kind : Nat → Kind} {s s' : State} {i : Nat} (h : Inv kind s
   · intro a b hab
     simp only [setPhase_phase, setPhase_queue, setPhase_busy, setPhase_pred] at *
     obtain ⟨h1, h2, h3⟩ := h.pred a b hab
-    refine ⟨h1, h2, ?_⟩
+    refine ⟨h1, snd_conj (by simp) h2, ?_⟩
     rcases h3 with q | q | ⟨q, r⟩
     · have hai : a ≠ i := by intro e; subst e; exact hnq.2.2 q
       left; simp [hai, q]
@@ -424,7 +479,7 @@ theorem inv_fin {kind : Nat → Kind} {s s' : State} {i : Nat} (h : Inv kind s)
   · intro a b hab
     simp only [setPhase_phase, setPhase_queue, setPhase_pred] at *
     obtain ⟨h1, h2, h3⟩ := h.pred a b hab
-    refine ⟨h1, h2, ?_⟩
+    refine ⟨h1, snd_conj (by simp) h2, ?_⟩
     by_cases hai : a = i
     · subst hai; left; simp
     · rcases h3 with q | q | ⟨q, r⟩
@@ -443,6 +498,7 @@ theorem inv_step {kind : Nat → Kind} {s s' : State} {l : Label} (h : Inv kind 
     (hs : step kind s l = some s') : Inv kind s' := by
   cases l with
   | send i => exact inv_send h hs
+  | bsend ps i => exact inv_bsend h hs
   | write i => exact inv_write h hs
   | ret i => exact inv_ret h hs
   | disp i => exact inv_disp h hs
